@@ -278,12 +278,22 @@ def main():
     kinds = ["jit", "scan", "while", "fori", "cond", "nested_jit", "grad", "value_and_grad", "vmap",
              "seed_while", "seed_jit", "seed_fori", "seed_ok", "seed_scan_while", "jit_det",
              "jit_adev", "seed_ok_adev", "seed_scan_adev"]
-    for it in range(2 * len(kinds)):
+    from genjax import modular_vmap
+    for it in range(4 * len(kinds)):
         k = kinds[it % len(kinds)]
-        depth = 1 + it // len(kinds)
+        rnd = it // len(kinds)
+        depth = 1 + rnd % 2
+        # site variants: a plain site, a site with its own sample_shape, a site vectorised by axis_size
+        # (which the batching rule re-creates with a sample_shape); rounds 0/1 plain, 2 shaped, 3 vectorised
+        variant = "plain" if rnd < 2 or k.endswith("adev") else ("shaped" if rnd == 2 else "vectorised")
         ech = aecho if k.endswith("adev") else echo
-        site = lambda v: ech(v)[0].astype(jnp.float32) * 0.0 + v + 1.0  # noqa: E731
-        c = {"kind": "lower", "ctx": k, "depth": depth}
+        if variant == "plain":
+            site = lambda v: ech(v)[0].astype(jnp.float32) * 0.0 + v + 1.0  # noqa: E731
+        elif variant == "shaped":
+            site = lambda v: echo(v, sample_shape=(2,))[0][0].astype(jnp.float32) * 0.0 + v + 1.0  # noqa: E731
+        else:
+            site = lambda v: modular_vmap(lambda: echo(v), axis_size=2)()[0][0].astype(jnp.float32) * 0.0 + v + 1.0  # noqa: E731
+        c = {"kind": "lower", "ctx": k, "depth": depth, "variant": variant}
 
         def wrap(fn, d):
             for _ in range(d - 1):
